@@ -9,7 +9,10 @@ package dst
 // Decoration lists (decorations.go)
 //
 // View: content(d) = elements [0,len) of *d. A Decorations value owns its backing array: the
-// caller's argument slice lives in a different array (or is empty).
+// caller's argument slice lives in a different array (or is empty). The clauses say what the
+// property says (list content, argument neither modified nor retained) plus the ownership
+// invariant that carries it through sequences of calls; they do not prescribe whether an
+// implementation reuses its own storage or allocates.
 
 //@ func (d *Decorations) Append
 //@ requires owns: len(decs) == 0 || cap(*d) == 0 || arr(*d) != arr(decs)
@@ -23,30 +26,35 @@ package dst
 //@ ensures others_untouched: forall a int, j int :: a != old(arr(*d)) && wasAllocated(a) ==> elem(string, a, j) == old(elem(string, a, j))
 
 //@ func (d *Decorations) Prepend
+//@ requires owns: len(decs) == 0 || cap(*d) == 0 || arr(*d) != arr(decs)
 //@ modifies *d, elems(string)
 //@ ensures length: len(*d) == old(len(*d)) + len(decs)
 //@ ensures prefix_is_arg: forall i int :: 0 <= i && i < len(decs) ==> (*d)[i] == old(decs[i])
 //@ ensures suffix_kept: forall i int :: 0 <= i && i < old(len(*d)) ==> (*d)[len(decs) + i] == old((*d)[i])
 //@ ensures arg_unchanged: forall j int :: row(decs)[j] == old(row(decs)[j])
-//@ ensures old_array_unchanged: forall j int :: elem(string, old(arr(*d)), j) == old(elem(string, arr(*d), j))
-//@ ensures array_fresh: fresh(arr(*d))
-//@ ensures others_untouched: forall a int, j int :: wasAllocated(a) ==> elem(string, a, j) == old(elem(string, a, j))
+//@ ensures arg_not_retained: len(decs) == 0 || arr(*d) != arr(decs)
+//@ ensures array_old_or_fresh: arr(*d) == old(arr(*d)) || fresh(arr(*d))
+//@ ensures others_untouched: forall a int, j int :: a != old(arr(*d)) && wasAllocated(a) ==> elem(string, a, j) == old(elem(string, a, j))
 
 //@ func (d *Decorations) Replace
+//@ requires owns: len(decs) == 0 || cap(*d) == 0 || arr(*d) != arr(decs)
 //@ modifies *d, elems(string)
 //@ ensures length: len(*d) == len(decs)
 //@ ensures content_is_arg: forall i int :: 0 <= i && i < len(decs) ==> (*d)[i] == old(decs[i])
 //@ ensures arg_unchanged: forall j int :: row(decs)[j] == old(row(decs)[j])
-//@ ensures array_fresh: fresh(arr(*d))
-//@ ensures others_untouched: forall a int, j int :: wasAllocated(a) ==> elem(string, a, j) == old(elem(string, a, j))
+//@ ensures arg_not_retained: len(decs) == 0 || arr(*d) != arr(decs)
+//@ ensures array_old_or_fresh: arr(*d) == old(arr(*d)) || fresh(arr(*d))
+//@ ensures others_untouched: forall a int, j int :: a != old(arr(*d)) && wasAllocated(a) ==> elem(string, a, j) == old(elem(string, a, j))
 
 //@ func (d *Decorations) Clear
 //@ modifies *d
-//@ ensures is_nil: *d == nil && len(*d) == 0 && cap(*d) == 0
+//@ ensures is_empty: len(*d) == 0
+//@ ensures array_old_or_none: arr(*d) == old(arr(*d)) || arr(*d) == 0
 
 //@ func (d *Decorations) All
-//@ modifies nothing
-//@ ensures header_identity: arr(result) == arr(*d) && off(result) == off(*d) && len(result) == len(*d) && cap(result) == cap(*d)
+//@ modifies newobjects
+//@ ensures same_length: len(result) == len(*d)
+//@ ensures same_content: forall i int :: 0 <= i && i < len(*d) ==> result[i] == (*d)[i]
 //@ ensures unchanged: arr(*d) == old(arr(*d)) && off(*d) == old(off(*d)) && len(*d) == old(len(*d)) && cap(*d) == old(cap(*d))
 
 // ---------------------------------------------------------------------------------------------
@@ -68,4 +76,12 @@ package dst
 //@ foreach invariant count: 0 <= $i && $i <= len($src)
 //@ foreach invariant length: len($dst) == $i
 //@ foreach invariant elems: forall j int :: 0 <= j && j < $i ==> cloneOf($dst[j], $src[j])
-//@ foreach invariant backing: $i == 0 ? $dst == nil : !wasAllocated(arr($dst))
+//@ foreach invariant backing: $i == 0 ? $dst == nil : (!wasAllocated(arr($dst)) && arr($dst) >= entry(allocCounter()) && allocated(arr($dst)))
+//@ foreach invariant old_rows: rowsKeptSinceLoopEntry()
+//@ case Package
+//@ loop 1 invariant keys: forall k string :: has(out.Imports, k) == $visited[k]
+//@ loop 1 invariant subset: forall k string :: $visited[k] ==> has(n.Imports, k)
+//@ loop 1 invariant values: forall k string :: has(out.Imports, k) ==> out.Imports[k] == nil
+//@ loop 2 invariant keys: forall k string :: has(out.Files, k) == $visited[k]
+//@ loop 2 invariant subset: forall k string :: $visited[k] ==> has(n.Files, k)
+//@ loop 2 invariant values: forall k string :: has(out.Files, k) ==> cloneOf(out.Files[k], n.Files[k])
